@@ -263,6 +263,35 @@ Theorem translation_lltsa_pencil : forall F (Fo : FieldOps F) (Ff : IsField F) n
 Proof. exact main_translation_lltsa_pencil. Qed.
 Print Assumptions translation_lltsa_pencil.
 
+(* LLTSA, the code: before F25lltsa the left-hand side carried -(1/n) s s^T, at 51d934e it still
+   carries eps X X^T (nullspace shift on the diagonal of the alignment matrix): in both the pencil
+   moves under a translation while the right-hand side does not (regression theorems, pencil
+   level) ... *)
+Theorem translation_lltsa_pre_f25_refuted :
+  exists n (W X : mat Qc) (t : vec Qc), zero_row_col_sums n W /\
+    lltsa_lhs_shipped n W (translate t X) 0 0 <> lltsa_lhs_shipped n W X 0 0 /\
+    lltsa_rhs n (translate t X) 0 0 = lltsa_rhs n X 0 0.
+Proof. exact lltsa_pre_f25_pencil_moves. Qed.
+Print Assumptions translation_lltsa_pre_f25_refuted.
+
+Theorem translation_lltsa_f25_shift_refuted :
+  exists n (eps : Qc) (W X : mat Qc) (t : vec Qc), zero_row_col_sums n W /\
+    lltsa_lhs_f25 n eps W (translate t X) 0 0 <> lltsa_lhs_f25 n eps W X 0 0 /\
+    lltsa_rhs n (translate t X) 0 0 = lltsa_rhs n X 0 0 /\
+    lltsa_lhs_f42 n (shift_diag eps W) (translate t X) 0 0 = lltsa_lhs_f42 n (shift_diag eps W) X 0 0.
+Proof. exact lltsa_f25_shift_pencil_moves. Qed.
+Print Assumptions translation_lltsa_f25_shift_refuted.
+
+(* ... and the repair fixes/F42 (both sides from the centred features): invariant for EVERY weight
+   matrix, shifted diagonal included; the right-hand side is the same scatter matrix *)
+Theorem translation_lltsa_f42 : forall F (Fo : FieldOps F) (Ff : IsField F) n (W' : mat F) (t : vec F) (X : mat F) a b,
+  of_nat n <> 0%F ->
+  lltsa_lhs_f42 n W' (translate t X) a b = lltsa_lhs_f42 n W' X a b /\
+  lltsa_rhs_f42 n (translate t X) a b = lltsa_rhs_f42 n X a b /\
+  lltsa_rhs_f42 n X a b = lltsa_rhs n X a b.
+Proof. exact main_translation_lltsa_f42. Qed.
+Print Assumptions translation_lltsa_f42.
+
 (* NPE and LPP are NOT invariant (the statement excludes them): two samples 3, 4 moved by 17;
    both problems have valid answers and EVERY pair of valid answers gives different embedding
    distances *)
